@@ -358,6 +358,7 @@ def run(ck, ix, tier):
         ck.check(ok, "G-PROV", "_numpy_method_wrap|method-looked-up-on-converted-copy", mw.loc(rebind[0]) if rebind else mw.loc(), "the ndarray method is re-bound to the converted copy's magnitude",
                  "after converting a copy to the required input units the ndarray method is not looked up on that copy's magnitude (the unconverted data would be used)")
 
+    raw_magnitude_rule(ck, ix)
     # ------------------------------------------------------------ (b) role agreement in hand-written implementations
     n_roles = 0
     for f in m.all_functions:
@@ -526,3 +527,56 @@ def run(ck, ix, tier):
     inplace_primitives_rule(ck, ix)
     stale_alias_rule(ck, ix)
     return EXPLANATION
+
+
+
+# (implementation, parameter) pairs whose magnitude may be read RAW (no conversion): the parameter carries no units
+# role, or the implementation accounts for its units separately.  Confirmed one by one on the pinned tree.
+RAW_MAGNITUDE_OK = {
+    ("convert_arg", "arg"): "the helper that performs the conversion itself (m_as of the target units)",
+    ("_full_like", "fill_value"): "units re-applied by multiplying with ones_like(a) * fill_value.units",
+    ("_where", "condition"): "boolean selector: no units role (offset units rejected before)",
+    ("_copyto", "src"): "converted with src.m_as(dst.units) / only read raw when dst is not a quantity and src is dimensionless",
+    ("_copyto", "dst"): "destination buffer: written in its own units",
+    ("_isin", "element"): "test elements are converted to element's units; element itself is the reference",
+    ("_pad", "array"): "pad values are converted to array's units; array itself is the reference",
+    ("_any", "a"): "truth value: offset units rejected, zero is zero in every multiplicative unit",
+    ("_all", "a"): "truth value: offset units rejected, zero is zero in every multiplicative unit",
+    ("implement_prod_func.<locals>._prod", "a"): "units raised to the number of factors separately",
+    ("_trapz", "y"): "units of y and x/dx multiplied into the result separately",
+    ("_trapz", "x"): "units of y and x/dx multiplied into the result separately",
+    ("_trapz", "dx"): "units of y and x/dx multiplied into the result separately",
+    ("_correlate", "a"): "units multiplied into the result separately",
+    ("_correlate", "v"): "units multiplied into the result separately",
+    ("implement_mul_func.<locals>.implementation", "a"): "units multiplied into the result separately (after _base_unit_if_needed)",
+    ("implement_mul_func.<locals>.implementation", "b"): "units multiplied into the result separately (after _base_unit_if_needed)",
+}
+
+
+def raw_magnitude_rule(ck, ix):
+    """Who may strip a parameter of its units without converting it: in pint/facets/numpy/numpy_func.py a parameter of
+    an implementation may be read as `.m` / `.magnitude` / `._magnitude` / getattr(p, 'magnitude', p) only for the
+    confirmed (implementation, parameter) pairs of RAW_MAGNITUDE_OK; every other quantity-valued argument has to go
+    through convert_to_consistent_units / unwrap_and_wrap_consistent_units / m_as / to (so that, e.g., the `period` of
+    np.interp is expressed in the units of x before NumPy sees the number)."""
+    m = ix.module(NF)
+    seen = set()
+    for f in m.all_functions:
+        if not isinstance(f.node, ast.FunctionDef):
+            continue
+        a = f.node.args
+        ps = {x.arg for x in a.args + a.kwonlyargs + a.posonlyargs}
+        q = f.qualname.split("::")[1]
+        for n in walk_local(f.node):
+            p_ = None
+            if isinstance(n, ast.Call) and isinstance(n.func, ast.Name) and n.func.id == "getattr" and len(n.args) >= 2 and isinstance(n.args[1], ast.Constant) \
+                    and n.args[1].value in ("magnitude", "m", "_magnitude") and isinstance(n.args[0], ast.Name) and n.args[0].id in ps:
+                p_ = n.args[0].id
+            elif isinstance(n, ast.Attribute) and n.attr in ("magnitude", "m", "_magnitude") and isinstance(n.value, ast.Name) and n.value.id in ps:
+                p_ = n.value.id
+            if p_ is None or (q, p_) in seen:
+                continue
+            seen.add((q, p_))
+            ck.check((q, p_) in RAW_MAGNITUDE_OK, "G-OWN", f"raw-magnitude|{q}|{p_}", f.loc(n), RAW_MAGNITUDE_OK.get((q, p_), ""),
+                     f"`{norm(n)}` in {q} reads the magnitude of parameter `{p_}` without converting it to the units NumPy will assume for it (not one of the confirmed unit-free roles): a quantity in other units - or of another dimension - is accepted as a bare number")
+    ck.floor("G-OWN", len(seen), 10, "raw magnitude reads of parameters in numpy_func implementations")
